@@ -44,7 +44,7 @@ def build_tree(rng, root):
                 n["mode"] |= 0o700
             n["owner"] = (rng.choice([0, 0, 1, 2, 1000, 65534, 4242]), rng.choice([0, 0, 1, 5, 1000, 65534, 777]))
         n["mtime"] = base + rng.choice([0, 1, 59, 60, 3599, 3600, 86399, 86400, 86401, 2 * 86400,
-                                        rng.randrange(0, 40 * 86400)]) + rng.choice([0, 0, 0.5, 0.999, 0.000001])
+                                        rng.randrange(0, 40 * 86400)]) + rng.choice([0, 0, 0.5, 0.999, 0.000001]) + rng.choice([0, 0, 182 * 86400])
     tree.materialise(root, nodes)
     # a few hard links so that `hardlinks` varies on files
     files = [n for n in nodes if n["kind"] == "file"]
@@ -67,7 +67,7 @@ def gen_content(rng):
     return b"".join(b"line %d\n" % i for i in range(lines)) + (b"tail" if rng.random() < 0.3 else b"")
 
 
-def gen_condition(rng, snap, prefix):
+def gen_condition(rng, snap, prefix, tz="UTC"):
     """Returns (condition text, predicate(entry) -> True/False/UNDEF, coverage key)."""
     kind = rng.choice(["num", "num", "text", "text", "bool", "date", "between", "colcol", "quoted"])
     if kind == "num":
@@ -127,14 +127,14 @@ def gen_condition(rng, snap, prefix):
         return "%s %s %s" % (col, op, wtext), pred, ("bool", model.canon_op(op), word)
     if kind == "date":
         e0 = rng.choice(snap)
-        t = model.local_naive(e0.st.st_mtime, "UTC") + datetime.timedelta(seconds=rng.choice([-1, 0, 0, 1, -86400, 86400]))
+        t = model.local_naive(e0.st.st_mtime, tz) + datetime.timedelta(seconds=rng.choice([-1, 0, 0, 1, -86400, 86400, 3600, -3600]))
         prec = rng.choice(["day", "hour", "minute", "second"])
         lit = {"day": t.strftime("%Y-%m-%d"), "hour": t.strftime("%Y-%m-%d %H"),
                "minute": t.strftime("%Y-%m-%d %H:%M"), "second": t.strftime("%Y-%m-%d %H:%M:%S")}[prec]
         op = rng.choice(DATE_OPS)
 
         def pred(e, op=op, lit=lit):
-            return model.compare("date", op, model.col_value(e, "modified", prefix)[1], lit, tz="UTC")
+            return model.compare("date", op, model.col_value(e, "modified", prefix, tz)[1], lit, tz=tz)
         return "modified %s '%s'" % (op, lit), pred, ("date", model.canon_op(op), prec)
     if kind == "between":
         col = rng.choice(NUM_COLS)
@@ -212,10 +212,13 @@ def run_job(job):
         snap = tree.snapshot(root)
         shape = tree.shape_key(snap)
         universe = set(e.abs for e in snap)
+        # the local time zone of the run: entries from both halves of the year, so that one fixed offset cannot serve them all
+        tz = rng.choice(["UTC", "UTC", "Europe/Berlin", "America/New_York", "Australia/Sydney"])
+        res.cover("tz", tz)
         for qi in range(job["queries"]):
-            cond, pred, ckey = gen_condition(rng, snap, "t")
+            cond, pred, ckey = gen_condition(rng, snap, "t", tz)
             query = "path from t where %s into list" % cond
-            r = runner.run([query], cwd=w, home=home)
+            r = runner.run([query], cwd=w, home=home, tz=tz)
             res.ev()
             ctx = {"query": query, "result": r.brief()}
             if r.verdict != "ok":
